@@ -21,7 +21,13 @@ import (
 	"time"
 )
 
-const VerifDir = "/verif"
+// VerifDir is /verif; VERIF_DIR overrides it for scratch copies of the harness used during development.
+var VerifDir = func() string {
+	if d := os.Getenv("VERIF_DIR"); d != "" {
+		return d
+	}
+	return "/verif"
+}()
 
 // Prop is one property driver.
 type Prop struct {
